@@ -425,6 +425,26 @@ def run_case(case):
                 viol.append(V("wrong_density", "logpdf_is_documented_parameterisation",
                               f"{name}{tuple(case['args'])}.logpdf({world.to_py(v)}) = {got}, reference {want}", **sig))
                 break
+        # --- op-level: the keyword spellings of the parameters (documented order, reversed order, first
+        # parameter positional + rest by keyword) name the same density as the positional call
+        if not viol and name in KWNAMES and len(KWNAMES[name]) == len(ja):
+            names = KWNAMES[name]
+            spell = [("documented", (), list(zip(names, ja))), ("reversed", (), list(zip(names, ja))[::-1]),
+                     ("mixed", tuple(ja[:1]), list(zip(names, ja))[1:][::-1])]
+            for v in values_across_support(case, np.random.default_rng(case["vseed"]))[2:5]:
+                want = ref_logpdf(case, v)
+                if not np.isfinite(want):
+                    continue
+                for label, pos, kws in spell:
+                    got = float(d.logpdf(jnp.asarray(v), *pos, **dict(kws)))
+                    probes["logpdf_kw_points"] = probes.get("logpdf_kw_points", 0) + 1
+                    evals += 1
+                    if not world.close(got, want, 2e-3, 2e-3):
+                        viol.append(V("wrong_density", "keyword_call_names_the_same_density",
+                                      f"{name}.logpdf({world.to_py(v)}, {[k for k, _ in kws]} {label}) = {got}, reference {want}", **sig))
+                        break
+                if viol:
+                    break
         # --- op-level: normalisation
         if not viol:
             nz = normalisation(case)
